@@ -45,6 +45,9 @@ def generate(rng, tier, shard, nshards):
                     sib = [t for t in sorted(g.V) if t != ctx[-1]]
                     warm = [ctx[:-1]] + [ctx[:-1] + [t] for t in sib] + warm
                 yield gops.event("pnext", dict(base, ctx=ctx, backend=backend, warm=warm), site=f"{backend}LM.p_next", feat=feat)
+            for _ in range(4):
+                c2, ext = rng.choice(ctxs[:7]), rng.choice(ctxs[1:7])
+                yield gops.event("pnextseq", dict(base, ctx=c2, ext=ext, backend=backend), site=f"{backend}LM.p_next_seq", feat=feat)
             for s in ctxs[: 8 if tier == "quick" else 31]:
                 yield gops.event("lmcall", dict(base, s=s, backend=backend), site=f"{backend}LM.__call__", feat=feat)
         for ctx in ctxs[:7]:
@@ -64,7 +67,7 @@ def generate(rng, tier, shard, nshards):
 
 
 def selftests(events, rng):
-    out = selftest_numeric(events, rng, ops=("lmcall",), n=6)
+    out = selftest_numeric(events, rng, ops=("lmcall", "pnextseq"), n=8)
     cands = [e for e in events if "exc" not in e and e["op"] in ("pnext", "ntw") and any(v != [0, 1] and v != 0 for _, v in e["dist"])]
     rng.shuffle(cands)
     for e in cands[:10]:
